@@ -815,3 +815,14 @@ package main
 //@ func (*RuntimeState).generateRoleCert
 //@   requires template != nil
 //@   atcall crypto/x509.CreateCertificate requires (rnd2 io.Reader, template2 *x509.Certificate, parent2 *x509.Certificate, pub2 any, priv2 any) :: template2 == template && certWindowEnd(template2) == old(certWindowEnd(template)) && certWindowStart(template2) == old(certWindowStart(template)) && certIsCA(template2) == old(certIsCA(template))   #C03.cloud-role-signs-the-window-it-was-given @C03
+
+// ---- C01 "a user who did complete an acceptable factor is served": the certificate endpoint asks checkAuth for
+// AuthTypeAny, which must admit a session carrying any single factor the operator can list (a lemma over the constants)
+//@ go:
+//@ func lemmaAnyAdmitsEveryFactor(lvl int) bool {
+//@ 	return lvl&AuthTypeAny != 0
+//@ }
+//@ end
+//@ func lemmaAnyAdmitsEveryFactor
+//@   requires lvl == AuthTypePassword || lvl == AuthTypeFederated || lvl == AuthTypeU2F || lvl == AuthTypeSymantecVIP || lvl == AuthTypeIPCertificate || lvl == AuthTypeTOTP || lvl == AuthTypeOkta2FA || lvl == AuthTypeBootstrapOTP || lvl == AuthTypeKeymasterX509 || lvl == AuthTypeWebauthForCLI || lvl == AuthTypeFIDO2
+//@   ensures ret0   #C01.any-admits-every-factor @C01,C06
